@@ -101,6 +101,7 @@ def replay(pid: str, path: Path, quiet: bool = False) -> int:
 
     util.silence()
     mod = load_prop(pid)
+    os.environ.update(getattr(mod, "ENV", {}))
     body = json.loads(Path(path).read_text())
     if hasattr(mod, "warmup"):
         mod.warmup()
@@ -173,6 +174,7 @@ def main(argv=None) -> int:
         return 2
 
     mod = load_prop(pid)
+    os.environ.update(getattr(mod, "ENV", {}))  # e.g. NUMBA_BOUNDSCHECK, before numba is imported
     cases = list(mod.cases(tier, seed))
     if hasattr(mod, "warmup"):
         mod.warmup()  # numba JIT once, inherited by the forked workers
